@@ -497,6 +497,60 @@ func closeOnce(c *Ctx, rule, key string, cs CallSite, pkg string) {
 			return
 		}
 	}
+	// (a') the same test-and-set made by a helper that reports "it was I who marked it": the close lies on the true edge of
+	// the helper's result; in the helper a lock is taken, the flag is tested (set ⇒ return false), set, and true returned
+	for _, f := range c.FactsAt(cs.In.Block()) {
+		call, isCall := strip(f.Cond).V.(*ssa.Call)
+		if !f.Val || !isCall || strip(f.Cond).Op != "call" {
+			continue
+		}
+		h := call.Call.StaticCallee()
+		if h == nil || !samePkgBody(fn, h) || h.Signature.Results().Len() != 1 {
+			continue
+		}
+		var set *ssa.Store
+		instrs(h, func(in ssa.Instruction) {
+			if st, ok := in.(*ssa.Store); ok {
+				if a := c.E(st.Addr); a.Op == "field" {
+					if cv, ok := st.Val.(*ssa.Const); ok && cv.Value != nil && cv.Value.ExactString() == "true" {
+						set = st
+					}
+				}
+			}
+		})
+		if set == nil {
+			continue
+		}
+		flag := c.E(set.Addr)
+		_, tested := c.Guarded(set, Field(flag.Name, Any()), false)
+		var lock, earlyUnlock ssa.Instruction
+		instrs(h, func(in ssa.Instruction) {
+			if ci, ok := in.(ssa.CallInstruction); ok {
+				x := c.CallX(ci)
+				if _, ok := Match(Call("sync.Mutex).Lock"), x); ok && lock == nil {
+					lock = in
+				}
+				if _, isDefer := in.(*ssa.Defer); !isDefer {
+					if _, ok := Match(Call("sync.Mutex).Unlock"), x); ok && Precedes(in, set) {
+						earlyUnlock = in
+					}
+				}
+			}
+		})
+		okRets := true
+		for _, b := range h.Blocks {
+			if ret, isRet := b.Instrs[len(b.Instrs)-1].(*ssa.Return); isRet && len(ret.Results) == 1 && b.Comment != "recover" {
+				v, isConst := boolConst(c.RetX(ret, 0))
+				if !isConst || v != (Precedes(set, ret) || set.Block() == b) {
+					okRets = false
+				}
+			}
+		}
+		if tested && lock != nil && Precedes(lock, set) && earlyUnlock == nil && okRets {
+			c.OK(rule, key, cs.In.Pos(), "closed on the true result of "+c.short(h.String())+", which tests and sets flag "+flag.String()+" while the mutex is held")
+			return
+		}
+	}
 	// (b) the enclosing function has exactly one call site, a go statement or call outside any loop.
 	top := topFunc(fn)
 	if fn == top {
@@ -681,6 +735,38 @@ func receiverCloseSignals(c *Ctx, rule string) {
 		return m
 	}
 	ok, path := pathsFromPass(mark, isCloseDone)
+	if !ok && mark.Parent() != cl.SSA {
+		// the mark is made by a helper that returns true exactly when it made it: from its call in Close, every path on
+		// which the result is true passes close(done)
+		h := mark.Parent()
+		okHelper := h.Signature.Results().Len() == 1
+		for _, b := range h.Blocks {
+			if ret, isRet := b.Instrs[len(b.Instrs)-1].(*ssa.Return); isRet && okHelper && b.Comment != "recover" {
+				v, isConst := boolConst(c.RetX(ret, 0))
+				if !isConst || v != (Precedes(mark, ret) || mark.Block() == b) {
+					okHelper = false
+				}
+			}
+		}
+		var site *ssa.Call
+		instrs(cl.SSA, func(in ssa.Instruction) {
+			if call, isCall := in.(*ssa.Call); isCall && call.Call.StaticCallee() == h {
+				site = call
+			}
+		})
+		if okHelper && site != nil {
+			ok, path = pathsFromPass(site, func(i ssa.Instruction) bool {
+				if isCloseDone(i) {
+					return true
+				}
+				if _, isRet := i.(*ssa.Return); isRet {
+					_, notMarked := c.GuardedB(i.Block(), Is(c.E(site)), false)
+					return notMarked
+				}
+				return false
+			})
+		}
+	}
 	c.Check(ok, rule, cl.Name+" › close(done) on every path that marks the receiver closed", mark.Pos(),
 		"once marked closed, every path through Close closes the done channel: a pending or later Next returns", "Close can mark the receiver closed and return without closing the done channel ("+path+"): Next never returns, so whoever waits for the consumer of Next (the subscriber's Close) hangs")
 }
